@@ -19,7 +19,7 @@ DRIVER = "drv_c01"
 
 OPS = ["tensordot", "tensordot", "tensordot", "add", "sub", "transpose", "conj", "trace", "smul", "neg", "vdot", "add_leg",
        "remove_leg", "moveaxis", "conj_blocks", "flip_signature", "copy", "consume_transpose", "matmul", "addmany",
-       "ncon", "einsum", "diag", "broadcast", "apply_mask", "fuse", "remove_zero_blocks"]
+       "ncon", "einsum", "diag", "broadcast", "apply_mask", "fuse", "remove_zero_blocks", "elementwise"]
 
 
 def program_budget(ctx):
